@@ -67,7 +67,7 @@ def criterion(method, sigma, n_sub, keep):
     return score
 
 
-def make_problem(rng, n_basis=None, tiny=False):
+def make_problem(rng, n_basis=None, tiny=False, n_negative=None):
     n_cond = int(rng.integers(5, 9))
     n_basis = n_basis or int(rng.integers(2, 5))
     if tiny:
@@ -77,7 +77,10 @@ def make_problem(rng, n_basis=None, tiny=False):
     n_train = int(rng.integers(1, 5))
     basis = gen.rdm_vectors(rng, n_basis, n_cond, gen.pick(rng, ['pos', 'eucl']))
     w = rng.uniform(0, 2, size=n_basis)
-    if rng.integers(3) == 0:
+    if n_negative is not None:
+        for i in rng.choice(n_basis, size=min(n_negative, n_basis - 1), replace=False):
+            w[int(i)] = -float(rng.uniform(0.3, 1.2))   # several weights leave the active set one after the other
+    elif rng.integers(3) == 0:
         w[int(rng.integers(n_basis))] = -0.7    # unconstrained optimum outside the positive orthant
     scales = rng.uniform(0.2, 8, size=(n_train, 1))
     data = (w @ basis + 0.4 * rng.standard_normal((n_train, basis.shape[1]))) * scales
@@ -180,15 +183,23 @@ class cycle_guard:
         return False
 
 
-def run_weighted(ctx, fname):
+def run_weighted(ctx, fname, force=None):
     rng = ctx.rng
-    tiny = fname == 'fit_regress_nn' and rng.integers(5) == 0
-    prob = make_problem(rng, tiny=tiny)
+    tiny = fname == 'fit_regress_nn' and force is None and rng.integers(5) == 0
+    if force == 'nn_whitened':
+        # non-negative fit under a given pattern covariance with 4-5 basis RDMs of which two carry negative true
+        # weights: the active-set iteration has to remove weights and re-solve the *whitened* sub-problem
+        prob = make_problem(rng, n_basis=int(rng.integers(4, 6)), n_negative=2)
+        prob['selk'], prob['pos'] = 'all', list(range(prob['n_cond']))
+    else:
+        prob = make_problem(rng, tiny=tiny)
     if tiny:
         prob['selk'], prob['pos'] = 'all', list(range(prob['n_cond']))
     method = gen.pick(rng, ['cosine', 'corr', 'cosine_cov', 'corr_cov'])
     n_sub = len(prob['pos'])
     sk = gen.pick(rng, ['none', 'none', 'matrix']) if method.endswith('_cov') else 'none'  # the fitters document a matrix
+    if force == 'nn_whitened':
+        method, sk = gen.pick(rng, ['cosine_cov', 'corr_cov']), 'matrix'
     if fname.startswith('fit_optimize'):
         # the property's optimality clause names the regression fitters; the BFGS fitters are checked where their
         # loss is exact (with a sigma_k matrix the loss goes through conjugate gradients at rtol 1e-5, and the
@@ -341,15 +352,20 @@ def run_select(ctx):
     if keep.sum() < 4 or any(np.ptp(d[keep]) < 1e-9 for d in list(data_sub) + list(basis_sub)):
         ctx.count('rejected_degenerate')
         return
-    sig = dict(fitter='fit_select', method=method, selection=prob['selk'], sigma='none')
-    wit = lambda **k: dict(basis=prob['basis'], data=prob['data'], pos=prob['pos'], method=method, **k)  # noqa: E731
+    sigma = None
+    if method == 'cosine_cov' and rng.integers(2):
+        method = gen.pick(rng, ['cosine_cov', 'corr_cov'])
+        sigma = gen.spd(rng, n_sub, 20.0)      # a given pattern covariance changes which candidate is best
+    sig = dict(fitter='fit_select', method=method, selection=prob['selk'], sigma='none' if sigma is None else 'matrix')
+    wit = lambda **k: dict(basis=prob['basis'], data=prob['data'], pos=prob['pos'], method=method, sigma_k=sigma, **k)  # noqa
     model = ModelSelect('s', model_rdms(prob))
     use_default = bool(rng.integers(2))
     idx = np.array([prob['lab'][p] for p in prob['pos']])
     if use_default:
-        call = lambda: model.fit(data_rdms(prob), method=method, pattern_idx=idx, pattern_descriptor=prob['desc'])  # noqa
+        kws = {} if sigma is None else {'sigma_k': sigma.copy()}
+        call = lambda: model.fit(data_rdms(prob), method=method, pattern_idx=idx, pattern_descriptor=prob['desc'], **kws)  # noqa
     else:
-        call = lambda: call_fitter('fit_select', model, data_rdms(prob), prob, method, None, False)  # noqa: E731
+        call = lambda: call_fitter('fit_select', model, data_rdms(prob), prob, method, sigma, False)  # noqa: E731
     ok, theta = ctx.guarded('optimal:fit_select', sig, call, data=wit)
     if not ok:
         return
@@ -360,10 +376,10 @@ def run_select(ctx):
         f = ref.spearman if method == 'spearman' else ref.rho_a_closed
         scores = [np.mean([f(b[keep], d[keep]) for d in data_sub]) for b in basis_sub]
     else:
-        sc = criterion(method, None, n_sub, keep)
+        sc = criterion(method, sigma, n_sub, keep)
         scores = [sc(b, data_sub) for b in basis_sub]
     ctx.count('competitors_scored', len(scores))
-    if scores[int(theta)] < max(scores) - 1e-9:
+    if scores[int(theta)] < max(scores) - (5e-4 if sigma is not None else 1e-9):
         ctx.fail('optimal:fit_select', sig, f'selected candidate {int(theta)} scores {scores[int(theta)]!r}, '
                  f'candidate {int(np.argmax(scores))} scores {max(scores)!r}', wit(theta=int(theta), scores=scores))
 
@@ -613,6 +629,8 @@ def run(ctx):
         run_rank_deficient(ctx)
     for _ in range(ctx.n(40, 120)):
         run_fitter_object(ctx)
+    for _ in range(ctx.n(40, 120)):
+        run_weighted(ctx, 'fit_regress_nn', force='nn_whitened')
     n = ctx.n(100, 300)
     for it in range(n):
         if ctx.out_of_time():
